@@ -32,6 +32,8 @@ impl RecorderOnceCell {
     {
         // Try and transition the cell from `UNINITIALIZED` to `INITIALIZING`, which would give
         // us exclusive access to set the recorder.
+        #[cfg(metrics_verif)]
+        crate::verif::point("cell.cas.pre", &[]);
         match self.state.compare_exchange(
             UNINITIALIZED,
             INITIALIZING,
@@ -39,6 +41,8 @@ impl RecorderOnceCell {
             Ordering::Relaxed,
         ) {
             Ok(UNINITIALIZED) => {
+                #[cfg(metrics_verif)]
+                crate::verif::point("cell.write.pre", &[]);
                 unsafe {
                     // SAFETY: Access is unique because we can only be here if we won the race
                     // to transition from `UNINITIALIZED` to `INITIALIZING` above.
@@ -46,6 +50,8 @@ impl RecorderOnceCell {
                 }
 
                 // Mark the recorder as initialized, which will make it visible to readers.
+                #[cfg(metrics_verif)]
+                crate::verif::point("cell.publish.pre", &[]);
                 self.state.store(INITIALIZED, Ordering::Release);
                 Ok(())
             }
@@ -54,11 +60,15 @@ impl RecorderOnceCell {
     }
 
     pub fn try_load(&self) -> Option<&'static dyn Recorder> {
+        #[cfg(metrics_verif)]
+        crate::verif::point("cell.load.pre", &[]);
         if self.state.load(Ordering::Acquire) != INITIALIZED {
             None
         } else {
             // SAFETY: If the state is `INITIALIZED`, then we know that the recorder has been
             // installed and is safe to read.
+            #[cfg(metrics_verif)]
+            crate::verif::point("cell.read.pre", &[]);
             unsafe { self.recorder.get().read() }
         }
     }
